@@ -19,8 +19,8 @@ def special(kind, vis, decl):
     """text of one special member"""
     if kind == 0:
         return ''
-    tail = {1: ';', 2: ' = default;', 3: ' = delete;', 4: ';'}[kind]
-    virt = 'virtual ' if kind == 4 else ''
+    tail = {1: ';', 2: ' = default;', 3: ' = delete;', 4: ';', 5: ' = 0;'}[kind]
+    virt = 'virtual ' if kind in (4, 5) else ''
     return '  %s: %s%s%s\n' % (ACC[vis], virt, decl, tail)
 
 
@@ -28,9 +28,9 @@ def member(mem):
     return {0: 'int m;', 1: 'const int m;', 2: 'int &m;', 3: 'int m = 0;', 4: 'const int m = 0;'}[mem]
 
 
-def lattice(mems):
+def lattice(mems, dtor_kinds=(1, 2, 3, 4)):
     ctor = [(0, 1)] + [(k, v) for k in (1, 2, 3) for v in (1, 2, 3)]
-    dtor = [(0, 1)] + [(k, v) for k in (1, 2, 3, 4) for v in (1, 2, 3)]
+    dtor = [(0, 1)] + [(k, v) for k in dtor_kinds for v in (1, 2, 3)]
     for (dc, dcv), (cc, ccv), (dt, dtv), pv, mem in itertools.product(ctor, ctor, dtor, (0, 1), mems):
         yield dc, dcv, cc, ccv, dt, dtv, pv, mem
 
@@ -51,18 +51,19 @@ def emit(mems=(0, 1, 2, 3, 4)):
                           ('is_destructible', 'c10_destructible'), ('is_abstract', 'c10_abstract'), ('is_polymorphic', 'c10_polymorphic')):
             out.append('static_assert(std::%s<%s>::value == %s(%s), "%s %s");' % (trait, name, fn, bits, trait, bits))
     # one base class: class B { bits }; class A : public B { [void f();] int m; };
-    for dc, dcv, cc, ccv, dt, dtv, pv, mem in lattice((0,)):
-        if dt == 4 and dtv == 3:
+    for dc, dcv, cc, ccv, dt, dtv, pv, mem in lattice((0,), (1, 2, 3, 4, 5)):
+        if dt in (4, 5) and dtv == 3:
             continue            # ill-formed, see c10d_well_formed
-        for ov in (0, 1):
+        for ov in (0, 1, 2, 3):
             bn, an = 'B%d' % n, 'D%d' % n
             n += 1
             body = special(dc, dcv, '%s()' % bn) + special(cc, ccv, '%s(const %s &)' % (bn, bn)) + special(dt, dtv, '~%s()' % bn)
             if pv:
-                body += '  public: virtual void f() = 0;\n'
+                body += '  public: virtual %s f() = 0;\n' % ('void' if ov < 2 else bn + ' *')
             body += '  public: int m;\n'
             out.append('class %s {\n%s};' % (bn, body))
-            out.append('class %s : public %s {\n%s  public: int m;\n};' % (an, bn, '  public: void f();\n' if ov else ''))
+            fa = {0: '', 1: '  public: void f();\n', 2: '  public: %s *f();\n' % bn, 3: '  public: %s *f();\n' % an}[ov]
+            out.append('class %s : public %s {\n%s  public: int m;\n};' % (an, bn, fa))
             bits = 'C10Bits{%d, %d, %d, %d, %d, %d, %d, %d}, %d' % (dc, dcv, cc, ccv, dt, dtv, pv, mem, ov)
             for trait, fn in (('is_default_constructible', 'c10d_default_constructible'), ('is_copy_constructible', 'c10d_copy_constructible'),
                               ('is_destructible', 'c10d_destructible'), ('is_abstract', 'c10d_abstract'), ('is_polymorphic', 'c10d_polymorphic')):
